@@ -407,7 +407,7 @@ func sameObj(a, b tengo.Object) bool {
 
 // ---- argument pools ----------------------------------------------------------------
 
-var sPool = []string{"", "a", "abc", "Hello, World", "héllo wörld", "  padded\t\n", "a,b,,c", "aXbXc", "ǅungla ǆ", "\xff\xfe", "日本語テキスト", "12", "-7", "3.5", "true", "1e3", "0x1F", "%d", "[a-c]+", "(a)(b)?", "a|", "\"quoted\\n\"", "`raw`", "'c'", "SGVsbG8=", "SGVsbG8", "48656c6c6f", "zz", "1h30m", "-1.5s", "2006-01-02", "2021-03-04", "UTC", "America/New_York", "Nowhere/Land", time.RFC3339, "2021-03-04T05:06:07Z", "b", "e", "g", "é"}
+var sPool = []string{"", "a", "abc", "Hello, World", "héllo wörld", "  padded\t\n", "a,b,,c", "aXbXc", "ǅungla ǆ", "\xff\xfe", "日本語テキスト", "12", "-7", "3.5", "true", "1e3", "0x1F", "%d", "[a-c]+", "(a)(b)?", "a|", "<$0>", "${0}x", "$$", "$1-$2", "$name", "[0-9]+", "\"quoted\\n\"", "`raw`", "'c'", "SGVsbG8=", "SGVsbG8", "48656c6c6f", "zz", "1h30m", "-1.5s", "2006-01-02", "2021-03-04", "UTC", "America/New_York", "Nowhere/Land", time.RFC3339, "2021-03-04T05:06:07Z", "b", "e", "g", "é"}
 var iPool = []int64{0, 1, -1, 2, 3, 7, 10, 16, 36, 37, 32, 64, 100, -100, 12, 24, 60, 5, 8}
 var iBigPool = []int64{1 << 31, math.MaxInt64, math.MinInt64, 1e9, 1500000000, 3600e9, -1e12, 1 << 53}
 
